@@ -244,9 +244,11 @@ def model_diff(m1: Model, m2: Model) -> ModelDiff:
                 rxn_diff = diff.different_surrogates.get(k, ReactionDiff())
                 rxn_diff.args1 = v1.args
                 rxn_diff.args2 = v2.args
+                diff.different_surrogates[k] = rxn_diff
             if v1.stoichiometries != v2.stoichiometries:
                 rxn_diff = diff.different_surrogates.get(k, ReactionDiff())
                 rxn_diff.stoichiometry1 = dict(v1.stoichiometries)  # type: ignore
                 rxn_diff.stoichiometry2 = dict(v2.stoichiometries)  # type: ignore
+                diff.different_surrogates[k] = rxn_diff
 
     return diff
